@@ -498,30 +498,6 @@ impl Check for C18 {
 
     fn shrink(&self, sc: &Scenario) -> Vec<Scenario> {
         let mut v = Vec::new();
-        // drop a whole client
-        if sc.clients.len() > 1 {
-            for c in 0..sc.clients.len() {
-                let mut s = sc.clone();
-                s.clients[c].clear();
-                v.push(s);
-            }
-        }
-        // drop the last op of a client
-        for c in 0..sc.clients.len() {
-            if sc.clients[c].len() > 1 {
-                let mut s = sc.clone();
-                s.clients[c].pop();
-                v.push(s);
-                let mut s = sc.clone();
-                s.clients[c].remove(0);
-                v.push(s);
-            }
-        }
-        if sc.group != "free" {
-            let mut s = sc.clone();
-            s.group = "free".into();
-            v.push(s);
-        }
         if let Some(cs) = &sc.coop {
             // keep only the cooperative part / drop it
             if !sc.clients.iter().all(|c| c.is_empty()) {
@@ -546,6 +522,30 @@ impl Check for C18 {
                     v.push(s);
                 }
             }
+        }
+        // drop a whole client
+        if sc.clients.len() > 1 {
+            for c in 0..sc.clients.len() {
+                let mut s = sc.clone();
+                s.clients[c].clear();
+                v.push(s);
+            }
+        }
+        // drop the last op of a client
+        for c in 0..sc.clients.len() {
+            if sc.clients[c].len() > 1 {
+                let mut s = sc.clone();
+                s.clients[c].pop();
+                v.push(s);
+                let mut s = sc.clone();
+                s.clients[c].remove(0);
+                v.push(s);
+            }
+        }
+        if sc.group != "free" {
+            let mut s = sc.clone();
+            s.group = "free".into();
+            v.push(s);
         }
         v
     }
